@@ -1049,7 +1049,8 @@ Lemma tokens_of_line t l :
 Proof.
   intros V VL D. destruct t as [s p o]. cbn [t_s t_p t_o] in *.
   unfold valid_triple in V. cbn [t_s t_p t_o] in V.
-  apply andb_true_iff in V. destruct V as [V Vo]. apply andb_true_iff in V. destruct V as [Vs Vp].
+  apply andb_true_iff in V. destruct V as [V Vu]. apply andb_true_iff in V. destruct V as [V Vo].
+  apply andb_true_iff in V. destruct V as [Vs Vp].
   destruct (layout_parts _ VL) as (W1 & N1 & W2 & N2 & W3 & WC & CC).
   unfold look_for_tokens.
   apply (chain _ (r_node s) (sep1 l) (r_iri p) (sep2 l) (r_obj o) (predot l) (r_tail (comment l))).
@@ -1177,7 +1178,8 @@ Proof.
     by first [assumption | apply valid_layout_norm; assumption | apply dom_norm; assumption].
   destruct t as [s p o]. cbn [t_s t_p t_o] in *.
   unfold valid_triple in V. cbn [t_s t_p t_o] in V.
-  apply andb_true_iff in V. destruct V as [V Vo]. apply andb_true_iff in V. destruct V as [Vs Vp].
+  apply andb_true_iff in V. destruct V as [V Vu]. apply andb_true_iff in V. destruct V as [V Vo].
+  apply andb_true_iff in V. destruct V as [Vs Vp].
   assert (TS : exists s', tune_token false (r_node s) = Ok s' /\ term_k s' = k_node s).
   { destruct s as [u|lab]; cbn [r_node k_node].
     - change (Str "<" ++ u ++ Str ">") with (r_iri u). rewrite tune_iri. eexists; split; reflexivity.
@@ -1260,7 +1262,8 @@ Qed.
 Lemma line_no_lf t l : valid_triple t = true -> valid_layout l = true -> ~ In lf (nt_line t l).
 Proof.
   intros V VL. destruct t as [s p o]. unfold valid_triple in V. cbn [t_s t_p t_o] in V.
-  apply andb_true_iff in V. destruct V as [V Vo]. apply andb_true_iff in V. destruct V as [Vs Vp].
+  apply andb_true_iff in V. destruct V as [V Vu]. apply andb_true_iff in V. destruct V as [V Vo].
+  apply andb_true_iff in V. destruct V as [Vs Vp].
   destruct (layout_parts _ VL) as (W1 & N1 & W2 & N2 & W3 & WC & CC).
   rewrite nt_line_shape. cbn [t_s t_p t_o].
   apply notin_app; [apply node_no_lf; exact Vs|].
